@@ -827,8 +827,8 @@ def get_matched_notes(spart_note_array, ppart_note_array, alignment):
             s_idx = np.where(spart_note_array["id"] == al["score_id"])[0]
 
             if len(s_idx) > 0 and len(p_idx) > 0:
-                s_idx = int(s_idx)
-                p_idx = int(p_idx)
+                s_idx = int(s_idx.item())
+                p_idx = int(p_idx.item())
                 matched_idxs.append((s_idx, p_idx))
 
     if len(matched_idxs) == 0:
